@@ -254,6 +254,16 @@ def run(ctx):
                     ctx.diff({"op": "valid", "alg": alg, "d": d}, got, f"{st} {payload}", op="valid")
             if not nd and (d < 700 or d > 10 ** 5) and alg == "vtb":
                 ctx.ask("valid", [d], cbv)
+            if not got and 1 <= d <= 40:
+                # an invalid dimensionality is rejected whatever the VALUES are (zero operands included)
+                for za, zb in ((np.zeros(d), np.ones(d)), (np.ones(d), np.zeros(d)), (np.zeros(d), np.zeros(d))):
+                    try:
+                        A.bind(za, zb)
+                        ctx.fail({"op": "bind-invalid-d", "alg": alg, "d": d, "a": za.tolist()[:4], "b": zb.tolist()[:4]},
+                                 "a vector was returned", "ValueError (d is not a valid dimensionality)",
+                                 where=f"valid-dimensionality-{alg}")
+                    except ValueError:
+                        pass
             if got and d <= 900:
                 # a dimensionality declared valid must be usable
                 try:
